@@ -458,12 +458,15 @@ def c13(tier):
         qs.append(sq('rcualloc_seq3_counting', 3, timeout=900))
         qs.append(sq('rcualloc_seq3_stdalloc', 3, std=True, timeout=900))
         qs.append(cq('rcualloc_2t_handle_erase_R2', 0, 0, 2, 2, timeout=900))
+        # two writers erasing the same (only) element: it must be unlinked, destroyed and freed once
+        qs.append(cq('rcualloc_2t_erase_erase_R2', 2, 0, 2, 2, timeout=900))
     else:
         qs.append(sq('rcualloc_seq5_counting', 5, timeout=3000))
         qs.append(sq('rcualloc_seq4_stdalloc', 4, std=True, timeout=3000))
         qs.append(cq('rcualloc_2t_handle_erase_R3', 0, 0, 2, 3, timeout=3000))
         qs.append(cq('rcualloc_2t_push_erase_R3', 1, 0, 2, 3, timeout=3000))
         qs.append(cq('rcualloc_2t_erase_handles_R3', 2, 3, 0, 3, timeout=3000))
+        qs.append(cq('rcualloc_2t_erase_erase_R3', 2, 0, 2, 3, timeout=3400))
     return qs
 
 
@@ -621,6 +624,7 @@ def c04(tier):
     if tier == 'quick':
         qs.append(cowq('cow_commit_reader_R2', 'WR', 2, defines=['WMODE=0', 'NSNAP=1']))
         qs.append(cowq('cow_cancel_commit_R2', 'WV', 2, defines=['WMODE=1', 'WMODE_B=0', 'NSNAP=1']))
+        qs.append(cowq('cow_movecancel_commit_R2', 'WV', 2, defines=['WMODE=4', 'WMODE_B=0', 'NSNAP=1']))
     else:
         qs.append(cowq('cow_commit_tryshared_reader_R2', 'WR', 2, defines=['WMODE=0', 'NSNAP=1', 'USE_TRY_SHARED'], timeout=3400))
         qs.append(cowq('cow_commit_reader2_R3', 'WR', 3, defines=['WMODE=0', 'NSNAP=2'], timeout=3400))
@@ -629,6 +633,8 @@ def c04(tier):
         qs.append(cowq('cow_move_reader_R2', 'WR', 2, defines=['WMODE=2', 'NSNAP=1'], timeout=3400))
         qs.append(cowq('cow_commit_cancel_R2', 'WV', 2, defines=['WMODE=0', 'WMODE_B=1', 'NSNAP=1'], timeout=3400))
         qs.append(cowq('cow_move_commit_R2', 'WV', 2, defines=['WMODE=2', 'WMODE_B=0', 'NSNAP=1'], timeout=3400))
+        qs.append(cowq('cow_movecancel_commit_R2', 'WV', 2, defines=['WMODE=4', 'WMODE_B=0', 'NSNAP=1'], timeout=3400))
+        qs.append(cowq('cow_movecancel_reader_R2', 'WR', 2, defines=['WMODE=4', 'NSNAP=1'], timeout=3400))
         for od in orders(3, 'all'):
             qs.append(cowq('cow_w_w_r_R2_o' + ''.join(map(str, od)), 'WVR', 2, order=od, defines=['WMODE=0', 'NSNAP=1'], timeout=3400))
         qs.append(cowq('cow_cancel_reader_R3', 'WR', 3, defines=['WMODE=1', 'NSNAP=1'], timeout=3400))
@@ -659,8 +665,9 @@ def c07(tier):
         qs.append(mk('hb_lr_w2_r1_R3', 'c03_lr.cpp', [W, R1], 3, final='vp_final', cover=3, defines=['NWRITES=2', 'NREADS=1'], opts=hb, timeout=3400))
         qs.append(mk('hb_lr_w1_r1_R3', 'c03_lr.cpp', [W, R1], 3, final='vp_final', cover=3, defines=['NWRITES=1', 'NREADS=1'], opts=hb, timeout=3000))
         qs.append(mk('hb_lr_w1_r1_R4', 'c03_lr.cpp', [W, R1], 4, final='vp_final', cover=3, defines=['NWRITES=1', 'NREADS=1'], opts=hb, timeout=3400))
-        for mv in (0, 1, 2):
-            qs.append(mk(f'hb_trip_explicit_mv{mv}_R4', 'c19_tripwire.cpp', [('O', 'vp_owner'), ('D', 'vp_detector')], 4, final='vp_final', cover=3,
+        # (MV=2, move-assignment, at R=4 did not finish in 3000 s [measured]: decided at R=3)
+        for mv, R in ((0, 4), (1, 4), (2, 3)):
+            qs.append(mk(f'hb_trip_explicit_mv{mv}_R{R}', 'c19_tripwire.cpp', [('O', 'vp_owner'), ('D', 'vp_detector')], R, final='vp_final', cover=3,
                          defines=['LINEKIND=1', f'MV={mv}'], opts=hbn, unwind=4, checks='pointer', must_cover=4, timeout=3000))
         qs.append(mk('hb_latch_w_a1_aw_R3', 'c10_latch.cpp', [('W', 'vp_waiter'), ('A', 'vp_arriver'), ('AW', 'vp_arrive_wait')], 3, cover=7,
                      defines=['NARRIVE=1', 'HB_DATA', 'TOTAL_ARRIVALS=2'], opts=dict(hbn, spur=1), unwind=4, timeout=3000))
@@ -711,6 +718,8 @@ def c06(tier):
         qs.append(cq('deferred_detach_detach_R2', [S1, S2], ['NSUB1=1', 'NSUB2=1', 'KIND1=0', 'KIND2=0'], (0, 1), 3))
         # a reader that releases and re-acquires (second acquisition drains) against a submitter whose first call is queued and second is direct
         qs.append(cq('deferred_reader2_detach2_R2', [S1, Rd], ['NSUB1=2', 'NSUB2=0', 'KIND1=0', 'KIND1B=0', 'READER_TRY'], (1, 0), 5))
+        # modify_async on the direct path after a queued modify_detach of the same thread, against a reader releasing its handle at any point (order clause)
+        qs.append(cq('deferred_reader_detach_async_R2', [S1, Rd], ['NSUB1=2', 'NSUB2=0', 'KIND1=0'], (1, 0), 5))
     return qs
 
 
@@ -738,13 +747,45 @@ def c16(tier):
         kw.setdefault('unwind', 4)
         return mk(name, 'c16_delayed.cpp', threads, rounds, order=order, final='vp_final', cover=(1 << len(threads)) - 1, defines=defines,
                   opts={'yield_blocks': False, 'noinline': NI}, object_bits=12, **kw)
-    qs.append(dq('dd_adder_destroyer_R2', [A, D], 2, [], unwind=3, solvers=('kissat',), mem_gb=20))
-    qs.append(dq('dd_adder_destroyer_preload_R2', [A, D], 2, ['PRELOAD2'], unwind=3, solvers=('kissat',), mem_gb=20))
+    big = dict(unwind=3, solvers=('kissat',), mem_gb=40, timeout=3400, est_gb=20)
+    seq = dict(unwind=4, checks='pointer', timeout=2400, object_bits=12, mem_gb=40, est_gb=8, solvers=('kissat',))
+    def sq(name, defines):
+        return mk(name, 'c16_delayed.cpp', [], 1, seq=['vp_seq'], final='vp_final', cover=1, defines=defines, opts={'noinline': NI}, **seq)
+    if tier == 'quick':
+        qs.append(dq('dd_adder_destroyer_preload_reenter_R2', [A, D], 2, ['PRELOAD2', 'REENTER'], **big))
+        qs.append(sq('dd_seq_single_cb', ['SINGLE', 'WITH_CALLBACK', 'REENTER', 'DROP2']))
+        qs.append(sq('dd_seq_locked_cb', ['WITH_CALLBACK', 'REENTER', 'DROP1_EARLY']))
+    else:
+        qs.append(dq('dd_adder_destroyer_R2', [A, D], 2, [], **big))
+        qs.append(dq('dd_adder_destroyer_R2_o10', [A, D], 2, [], order=(1, 0), **big))
+        qs.append(dq('dd_adder_destroyer_preload_cb_reenter_R2', [A, D], 2, ['PRELOAD2', 'REENTER', 'WITH_CALLBACK'], **big))
+        qs.append(dq('dd_adder_destroyer_both_destroy_R2', [A, D], 2, ['PRELOAD2', 'ADDER_DESTROYS'], **big))
+        qs.append(dq('dd_adder_destroyer_preload_delete_R2', [A, D], 2, ['PRELOAD2', 'FINAL_DELETE'], **big))
+        qs.append(dq('dd_owner_destroyer_R2', [O2, D], 2, ['REENTER'], **big))
+        for d1 in (0, 1):
+            for d2 in (0, 1):
+                for single in (0, 1):
+                    defs = ['WITH_CALLBACK', 'REENTER', 'FINAL_DELETE'] + (['DROP1_EARLY'] if d1 else []) + (['DROP2'] if d2 else []) + (['SINGLE'] if single else [])
+                    qs.append(sq(f"dd_seq_{'single' if single else 'locked'}_d{d1}{d2}", defs))
     return qs
 
 
+C16_SPEC = dict(queries=c16, assumptions=COMMON_ASSUMPTIONS + [
+    "program shapes are fixed per query by macros (which objects are pre-loaded, who drops which external reference, callback / re-entrant destructor on or off); "
+    "symbolic are the schedule (where adder, external owner and destroyer are pre-empted, 2 threads x 2 contexts) and which try_lock_for times out",
+    "element type X counts its destructions per object (exactly once, 1604), checks that no external owner is left (1600), that the container's timed mutex is not held by the "
+    "destroying thread (1601), that the callback ran once before (1605/1606/1607, outside the lock 1603) and, with REENTER, calls size() on the same container from the "
+    "destructor and from the callback (a destructor under the lock then self-deadlocks on the modelled non-recursive mutex)",
+    "container plumbing (std::vector growth / erase / remove_if / find, std::function copy and call) runs atomically (noinline): it executes under destructionLock or on vectors "
+    "local to destroyObjects; shared_ptr reference counts, the timed mutex, user destructors and callbacks interleave; an atomic section that would have to wait for a lock "
+    "held by another thread is not explored from that point (it is reported only when the lock is held by the calling thread itself)",
+    "sequential queries (dd_seq_*): both classes, add / drop / destroyObjects / callback / re-entrance for fixed drop patterns - these are single executions pushed through the "
+    "same encoding (the solver has no free input there); they are listed because they are the only runs of DelayedDestructorSingleThread",
+    "formula size: 13-16 M variables, 57-72 M clauses per concurrent query (cbmc 10-14 GB + kissat 6-8 GB, 12-25 min each): the memory governor of vcheck.py runs at most two at once"],
+    outside=["more than 2 threads / 2 contexts per thread / 2 objects", "destroyObjects(delay) overload and the retry loop of ~DelayedDestructor racing with an owner that drops its reference "
+             "meanwhile (the destructor is run after all threads finished, in the thorough tier)", "TripWire short-circuit (ENABLE_TRIPWIRE off)", "exceptions thrown by destructors / callbacks"])
 if os.environ.get('VP_EXPERIMENTAL'):
-    SPECS['C16'] = dict(queries=c16, assumptions=COMMON_ASSUMPTIONS, outside=[])
+    SPECS['C16'] = C16_SPEC
 
 
 # ------------------------------------------------------------------------------------------------ not claimed
